@@ -211,7 +211,51 @@ def run(ctx):
     ctx.tlc("World", "SPECIFICATION Spec\nPROPERTY Reproducible\nCHECK_DEADLOCK FALSE\nCONSTANTS Funcs = {\"det\",\"rand\"}\n "
             "Deterministic = {\"det\"}\n Digests = {1,2}\n ArgVals = {%s}\n" % ("1,2" if T else "1"), note="world design spec (sanity instance)", timeout=3000)
     world(ctx, rnd, T)
+    edited_objects(ctx, rnd, T)
     timer_layer(ctx, rnd, T)
+
+
+def edited_objects(ctx, rnd, T):
+    """A deterministic block gives the same result for the same samples whatever was called before on the same object: call, edit the
+    object's samples in place, call again, and compare with the call on a brand-new object holding the same samples (same numpy seed)."""
+    from .. import world_lib as wl
+    dv, ppm, ook, ut, gv, binary_sequence, electrical_signal, optical_signal, eye = wl.load()
+    wl.configure(8, 10e9, None)
+    rs = np.random.RandomState(31)
+    n = 128
+    blocks = {
+        "DM": (lambda: optical_signal(rs.randn(n) + 1j * rs.randn(n)), lambda o: dv.DM(o, 40.0)),
+        "FIBER": (lambda: optical_signal(np.array([rs.randn(n) + 1j * rs.randn(n), rs.randn(n) + 0j]) * 0.1), lambda o: dv.FIBER(o, 10.0, 0.2, -20.0, 0.1, 1.3, 0.05)),
+        "BPF": (lambda: optical_signal(rs.randn(n) + 1j * rs.randn(n), rs.randn(n) * 0.1 + 0j), lambda o: dv.BPF(o, 20e9)),
+        "LPF": (lambda: electrical_signal(rs.randn(n), rs.randn(n) * 0.1), lambda o: dv.LPF(o, 7e9)),
+        "PD": (lambda: optical_signal((rs.randn(n) + 1j * rs.randn(n)) * 0.01), lambda o: dv.PD(o, 7e9, include_noise="ase-only")),
+        "SAMPLER": (lambda: electrical_signal(rs.randn(n), rs.randn(n)), lambda o: dv.SAMPLER(o, 3)),
+        "transform": (lambda: electrical_signal(rs.randn(n) + 1j * rs.randn(n), rs.randn(n)), lambda o: o("w", True)),
+        "power": (lambda: optical_signal(np.array([rs.randn(n) + 1j * rs.randn(n), rs.randn(n) + 0j])), lambda o: electrical_signal(np.atleast_1d(o.power()))),
+        "ADC": (lambda: electrical_signal(rs.randn(n)), lambda o: dv.ADC(o, n=3)),
+        "gt": (lambda: electrical_signal(np.abs(rs.randn(n)), np.abs(rs.randn(n)) * 0.1), lambda o: electrical_signal((o > 0.5).data.astype(float))),
+    }
+    for name, (mk, fn) in blocks.items():
+        obj = mk()
+        with warnings.catch_warnings():
+            warnings.simplefilter("ignore")
+            with deadline(120):
+                np.random.seed(5)
+                fn(obj)
+                obj.signal[..., ::3] = obj.signal[..., ::3] * 2 + 1
+                if obj.noise is not None:
+                    obj.noise *= 0.5
+                fresh = type(obj)(np.array(obj.signal), None if obj.noise is None else np.array(obj.noise))
+                np.random.seed(6)
+                again = fn(obj)
+                np.random.seed(6)
+                ref = fn(fresh)
+        same = np.array_equal(np.asarray(again.signal), np.asarray(ref.signal)) and ((again.noise is None) == (ref.noise is None)) and \
+            (again.noise is None or np.array_equal(np.asarray(again.noise), np.asarray(ref.noise)))
+        if not same:
+            ctx.violation(f"world:{name}:depends-on-earlier-calls", f"{name} on an object whose samples were edited in place differs from {name} on a new object with the same samples",
+                          {"block": name})
+        ctx.case(("edited-object", name), None)
 
 
 def timer_layer(ctx, rnd, T):
